@@ -437,6 +437,17 @@ func Run(ctx *common.Ctx) {
 		ctx.Hist("hang")
 		add(built{g: g, main: main, vars: []int64{0, 0}}, "relock of a held mutex")
 	}
+	// (1b) re-entrant exit sites: a function that calls itself while its own exit is in flight, called repeatedly
+	nre := 240
+	if ctx.Thorough() {
+		nre = 2000
+	}
+	for i := 0; i < nre; i++ {
+		g := &gen{rng: ctx.Rng}
+		main, shape := g.reentrant()
+		ctx.Hist(shape)
+		add(built{g: g, main: main, vars: []int64{0, 0}}, shape)
+	}
 	// (2) random nestings, depth 1..5; half of them steered towards places that deliver the exit
 	for i := 0; i < nrandom; i++ {
 		g := &gen{rng: ctx.Rng, safe: ctx.Rng.Chance(50), nilWrap: ctx.Rng.Chance(25)}
@@ -454,7 +465,7 @@ func Run(ctx *common.Ctx) {
 		add(b, fmt.Sprintf("random %s depth=%d exit=%s kinds=%s", mode, d, g.exitKind, strings.Join(g.usedKinds, ">")))
 	}
 	ctx.Meta.DistinctNontrivial = len(distinct)
-	ctx.Meta.Rule = "systematic: every (form kind x body position x exit kind) one level deep and every ordered pair of form kinds two levels deep, inside (block b (tagbody <nest> (tr) T (tr)) (tr)); random: nestings of depth 1..5 (plus side trees) of block, tagbody, unwind-protect (protected form and cleanup), with-mutex-lock, ignore-errors, recover (body and handler), with-open-file, let (body and init), progn, when (body and test), cond (body and test), dolist, dotimes, do (bodies and result forms), list arguments, return-from value, funcall of a lambda, calls of generated defuns, with an exit (normal, return-from/return to a visible or unknown block, go to a visible tag, error of 5 classes) at a random body position; result + ordered (tr k) trace, each entry with the mutexes held (TryLock) and the descriptors open on the test files (/proc/self/fd), + the same after the run; distinct = distinct programs with at least one nesting form and a non-normal exit"
+	ctx.Meta.Rule = "re-entrant: a generated defun whose return-from / return / go site is evaluated again while its own exit is in flight (self-call from an unwind-protect cleanup form, from the value form of the exit, inside the protected form), called 2-3 times with the counter rewound, every evaluation handing a different value to its exit; systematic: every (form kind x body position x exit kind) one level deep and every ordered pair of form kinds two levels deep, inside (block b (tagbody <nest> (tr) T (tr)) (tr)); random: nestings of depth 1..5 (plus side trees) of block, tagbody, unwind-protect (protected form and cleanup), with-mutex-lock, ignore-errors, recover (body and handler), with-open-file, let (body and init), progn, when (body and test), cond (body and test), dolist, dotimes, do (bodies and result forms), list arguments, return-from value, funcall of a lambda, calls of generated defuns, with an exit (normal, return-from/return to a visible or unknown block, go to a visible tag, error of 5 classes) at a random body position; result + ordered (tr k) trace, each entry with the mutexes held (TryLock) and the descriptors open on the test files (/proc/self/fd), + the same after the run; distinct = distinct programs with at least one nesting form and a non-normal exit"
 	header := "From C07 Require Import Model Spec Corr.\nOpen Scope N_scope.\n"
 	footer := "Definition res := Eval vm_compute in check_all cases.\nPrint res.\n" +
 		"Definition in_guard_count := Eval vm_compute in in_guard cases.\nPrint in_guard_count.\n" +
